@@ -181,3 +181,35 @@ void h_region(void)
   VERIF_CANARY;
 }
 #endif
+
+/* ------------------------------------------------------------------------------------------------
+ * buildOrthogonalNudgingSegments, channel limits of a middle segment at position thisPos (dimension dim): every checkpoint on an adjoining
+ * segment that lies before thisPos bounds the channel from below, every one after it from above; for a segment without checkpoints of its
+ * own that forms an S or Z bend the channel stays within the span of its two neighbours.  All of these hold TOGETHER.  BOUNDED. */
+#if defined(JOB_limits)
+void w_limits(void *nextCp, void *prevCp, void *cp, double thisPos, size_t dim, void *route, size_t i, double *outMin, double *outMax, int *outS, int *outZ);
+static double coord(struct Point *p, size_t dim) { return dim == 0 ? p->x : p->y; }
+void h_limits(void)
+{
+  struct Point nx[2], pv[2], own[2], rt[6]; struct vec vnx = { nx, 0, 2 }, vpv = { pv, 0, 2 }, vown = { own, 0, 2 }; struct Polygon route;
+  size_t n1, n2, n3, dim; double thisPos, mn, mx; int isS, isZ;
+  __CPROVER_assume(n1 <= 2 && n2 <= 2 && n3 <= 2 && dim <= 1 && thisPos >= -100000000.0 && thisPos <= 100000000.0);   /* coordinates within +-CHANNEL_MAX */
+  vnx.n = n1; vpv.n = n2; vown.n = n3;
+  for (int k = 0; k < 2; ++k) __CPROVER_assume(!IS_NAN(coord(&nx[k], dim)) && !IS_NAN(coord(&pv[k], dim)));
+  for (int k = 0; k < 6; ++k) __CPROVER_assume(!IS_NAN(coord(&rt[k], dim)));
+  route.ps.d = rt; route.ps.n = 6; route.ps.cap = 6;
+  size_t i = 2;                                      /* the segment is rt[i-1] -> rt[i]; its neighbours start at rt[i-2] and end at rt[i+1] */
+  w_limits(&vnx, &vpv, &vown, thisPos, dim, &route, i, &mn, &mx, &isS, &isZ);
+  for (size_t k = 0; k < 2; ++k) {
+    if (k < n1 && coord(&nx[k], dim) < thisPos) __CPROVER_assert(mn >= coord(&nx[k], dim), "SPEC a checkpoint before the segment on the NEXT adjoining segment bounds the channel from below");
+    if (k < n1 && coord(&nx[k], dim) > thisPos) __CPROVER_assert(mx <= coord(&nx[k], dim), "SPEC a checkpoint after the segment on the NEXT adjoining segment bounds the channel from above");
+    if (k < n2 && coord(&pv[k], dim) < thisPos) __CPROVER_assert(mn >= coord(&pv[k], dim), "SPEC a checkpoint before the segment on the PREVIOUS adjoining segment bounds the channel from below");
+    if (k < n2 && coord(&pv[k], dim) > thisPos) __CPROVER_assert(mx <= coord(&pv[k], dim), "SPEC a checkpoint after the segment on the PREVIOUS adjoining segment bounds the channel from above");
+  }
+  double prevPos = coord(&rt[i - 2], dim), nextPos = coord(&rt[i + 1], dim);
+  if (n3 == 0 && prevPos < thisPos && nextPos > thisPos) __CPROVER_assert(isZ && !isS && mn >= prevPos && mx <= nextPos, "SPEC Z bend: the channel stays within the span of the two neighbours");
+  if (n3 == 0 && prevPos > thisPos && nextPos < thisPos) __CPROVER_assert(isS && !isZ && mn >= nextPos && mx <= prevPos, "SPEC S bend: the channel stays within the span of the two neighbours");
+  __CPROVER_assert(mn <= thisPos && thisPos <= mx, "SPEC the segment's own position lies in its channel");
+  VERIF_CANARY;
+}
+#endif
